@@ -207,6 +207,7 @@ TOKENS = {
     "Uinf": (ref.UBX, "frame", ref.frame(4, 2, _NMEA1 + b"\xb5\x62")),
     "Ubad": (ref.UBX, "frame", _bad(_UACK)),
     "Uunk": (ref.UBX, "frame", ref.frame(1, 0x12, bytes(range(36)))),  # NAV-VELNED: GET only
+    "UinfBad": (ref.UBX, "frame", _bad(ref.frame(4, 2, _NMEA1 + b"\xb5\x62"))),  # bad checksum, payload holds an NMEA sentence
     "N1": (ref.NMEA, "frame", _NMEA1),
     "Nbad": (ref.NMEA, "frame", _bad(_NMEA1, -4)),
     "Npubx": (ref.NMEA, "frame", ref.nmea_sentence("PUBX,04,223232.00,040222,167552.00,2195,18,-9464,-23.0,21")),
@@ -215,6 +216,7 @@ TOKENS = {
     "Rbad": (ref.RTCM, "frame", _bad(_R1005)),
     "Rz": (ref.RTCM, "frame", ref.rtcm_frame(b"")),
     "Remb": (ref.RTCM, "frame", ref.rtcm_frame(bytes([0x3E, 0xD0]) + _U0 + bytes(9))),
+    "RembBad": (ref.RTCM, "frame", _bad(ref.rtcm_frame(bytes([0x3E, 0xD0]) + _UACK + b"$G" + bytes(5)))),  # bad CRC, payload holds a UBX frame
     "n00": (0, "noise", b"\x00"),
     "n62": (0, "noise", b"\x62"),
     "n0a": (0, "noise", b"\x0a"),
